@@ -84,6 +84,38 @@ def sums_worker(case, led):
                 led.check(ok, f"frame:{fn}:mutating_result_leaves_operands", fn, f"in-place scale + canonicalise of the result of {opname} changed an operand", key + (opname, "mut"),
                           {"op": opname}, dict(rep, op=opname))
 
+        # bond-dimension expansion (the drivers call it with include_ex=False): the input is an unnormalised state with a prefactor - it keeps its vector
+        b = a.scale(3.0)
+        b.coeff = 2.0
+        b.compress_config = CompressConfig(CompressCriteria.fixed, max_bonddim=6)
+        bd = S.dense(b).copy()
+        for opname, call in (("b.expand_bond_dimension(H, include_ex=False)", lambda: b.expand_bond_dimension(H, include_ex=False)),
+                             ("b.expand_bond_dimension(H)", lambda: b.expand_bond_dimension(H)),
+                             ("b.expand_bond_dimension()", lambda: b.expand_bond_dimension()),
+                             ("rho.expand_bond_dimension(H, include_ex=False)", lambda: rho.expand_bond_dimension(H, include_ex=False))):
+            fn = "Mps.expand_bond_dimension"
+            st = np.random.get_state()
+            np.random.seed(seed + 5)
+            try:
+                if opname.startswith("rho"):
+                    rho.compress_config = CompressConfig(CompressCriteria.fixed, max_bonddim=6)
+                r = call()
+            except Exception as e:
+                led.ok(f"skipped:{fn}:raised", fn, key + (opname, type(e).__name__), nontrivial=False)
+                r = None
+            finally:
+                np.random.set_state(st)
+            ok = np.abs(S.dense(b) - bd).max() <= 1e-12 * np.abs(bd).max() and np.abs(S.dense(rho) - rd).max() <= 1e-12 and np.abs(S.dense(H) - Hd).max() <= 1e-12 * max(1, np.abs(Hd).max())
+            led.check(ok, f"frame:{fn}:operands_unchanged", fn, f"{opname} changed the state it was called on (or H): |b| went from {np.linalg.norm(bd):.6f} to {np.linalg.norm(S.dense(b)):.6f}",
+                      key + (opname,), {"op": opname}, dict(rep, op=opname, how="b = a.scale(3.0); b.coeff = 2.0; max_bonddim 6"))
+            if r is not None:
+                led.check(r is not b and r is not rho, f"frame:{fn}:result_is_new_object", fn, f"{opname} handed back its input", key + (opname, "new"), {"op": opname}, dict(rep, op=opname))
+                # the expanded state is the input up to the admixture (coef 1e-10) and the norm moved into the prefactor
+                src = bd if opname.startswith("b") else rd
+                v = S.dense(r)
+                led.check(np.abs(v - src).max() <= 1e-6 * np.abs(src).max(), "post:Mps.expand_bond_dimension:same_vector_up_to_the_admixture", fn,
+                          f"{opname}: result differs from the input by {np.abs(v - src).max():.2e}", key + (opname, "val"), {"op": opname}, dict(rep, op=opname))
+
 
 def check(run):
     from props import C13_effects
